@@ -171,8 +171,8 @@ func solvePath(ps *PathScript, workDir string, perQueryMs int, onlySolver string
 		file := base + "." + first.Name + ".smt2"
 		if err := os.WriteFile(file, []byte(first.Pre+ps.Script), 0o644); err == nil {
 			p1 := perQueryMs
-			if p1 > 3000 {
-				p1 = 3000 // the first pass is the fast one; what it leaves is retried in isolation with the full limit
+			if p1 > 10000 {
+				p1 = 10000 // the first pass is the fast one; what it leaves is retried in isolation with the full limit
 			}
 			res, secs, _ := runScript(first, file, p1, nobl)
 			record(first, secs)
